@@ -17,7 +17,6 @@
 from __future__ import annotations
 
 import logging
-from copy import copy
 from typing import TYPE_CHECKING
 from typing import Any
 from typing import ClassVar
@@ -120,8 +119,14 @@ class PydanticGrammar(BaseGrammar):
         self.__model_needs_rebuild = True
 
     def _copy(self, grammar: Self) -> None:  # noqa:D102
-        grammar.__model = copy(self.__model)
-        grammar.__model_needs_rebuild = self.__model_needs_rebuild
+        # A model is a class: copying it would return the very same class,
+        # whose fields would be shared with the original grammar.
+        grammar.__model = create_model(self.__model.__name__, __base__=self.__model)
+        grammar.__model.model_fields = dict(self.__model.model_fields)
+        # As in _clear, for pickling a model created at runtime.
+        grammar.__model.__internal__ = None  # type: ignore[attr-defined]
+        grammar.__model.__pydantic_parent_namespace__ = {}
+        grammar.__model_needs_rebuild = True
 
     def _rename_element(self, current_name: str, new_name: str) -> None:  # noqa:D102
         fields = self.__model.model_fields
